@@ -87,6 +87,10 @@ def generate(tier, rng):
                 if c2 == "pause":
                     steps += [{"act": "Cmd", "c": "resume", "d": 0}]
                 scen.append({"kind": "stream", "finite": False, "lenc": 3, "src": "directed-command-while-stopping", "ring": 12, "e0": 0, "steps": steps + cbs(10)})
+    # directed: a finite sound whose start position is at or beyond its end has nothing to play: it reaches Stopped all the same
+    for kind in ("static", "stream"):
+        for start in (12, 13, 40):
+            scen.append({"kind": kind, "finite": True, "lenc": 3, "start": start, "src": "directed-start-at-end", "e0": 0, "steps": cbs(10)})
     # bounded exhaustive: every behaviour of depth 5 (quick) / 6 (thorough) with one duration set
     depth = 5 if tier == "quick" else 6
     base = cfg([0, 2], [0, 2], 3, 5, False, 3, "  D = %d\nCONSTRAINT Bound\nINVARIANT Dump\n" % depth)
